@@ -34,6 +34,40 @@ def make_aperture(spec, positions):
     raise ValueError(kind)
 
 
+# public parameter names in the order of the spec (the trailing names are derived defaults not present in the spec)
+PARAM_NAMES = {'circle': ['r'], 'cann': ['r_in', 'r_out'], 'ellipse': ['a', 'b', 'theta'],
+               'eann': ['a_in', 'a_out', 'b_out', 'theta', 'b_in'], 'rect': ['w', 'h', 'theta'],
+               'rann': ['w_in', 'w_out', 'h_out', 'theta', 'h_in']}
+
+
+def param_items(spec):
+    """-> [(attribute name, value)] of every public shape parameter of the aperture described by ``spec``: the spec
+    values as a constructor receives them; a derived default (b_in / h_in) as a fresh aperture reports it."""
+    names = PARAM_NAMES[spec[0]]
+    fresh = make_aperture(spec, (0.0, 0.0))
+    vals = list(spec[1:])
+    return [(n, vals[i] if i < len(vals) else float(getattr(fresh, n))) for i, n in enumerate(names)]
+
+
+def aperture_from_items(kind, items, positions):
+    """a fresh aperture from explicit (name, value) pairs (every parameter given, nothing derived)"""
+    from photutils import aperture as A
+    cls = {'circle': A.CircularAperture, 'cann': A.CircularAnnulus, 'ellipse': A.EllipticalAperture,
+           'eann': A.EllipticalAnnulus, 'rect': A.RectangularAperture, 'rann': A.RectangularAnnulus}[kind]
+    return cls(positions, **dict(items))
+
+
+def before_spec(spec):
+    """a different aperture of the same class (every size 1.5x larger, rotated by a further 0.9 rad): the state an
+    aperture object is in before its parameters are re-assigned to those of ``spec``"""
+    has_theta = spec[0] in ('ellipse', 'eann', 'rect', 'rann')
+    vals = list(spec[1:])
+    out = [v * 1.5 for v in vals]
+    if has_theta:
+        out[-1] = vals[-1] + 0.9
+    return [spec[0]] + out
+
+
 def tan_wcs():
     """A distortion-free TAN WCS (0.2 arcsec / pixel, rotated by 0.35 rad)."""
     from astropy.wcs import WCS
